@@ -281,7 +281,8 @@ def run_check(prop, tier, seed, replay, t0):
         cov["transitions"] = max(cov["transitions"], 1)
     if not cov["samples"]:
         cov["samples"] = [{"note": "no workload ran"}]
-    write_evidence(prop, tier, seed, cov, time.time() - t0, len(all_viol), plan.get("assumptions", []))
+    if not replay:
+        write_evidence(prop, tier, seed, cov, time.time() - t0, len(all_viol), plan.get("assumptions", []))
     log("[done] property=%s tier=%s rc=%d wall=%.1fs events=%d histories=%d drift=%d" % (
         prop, tier, rc, time.time() - t0, cov["evaluations"], cov["traces_validated_against_impl"], cov["spec_drift"]))
     if os.environ.get("VERIF_KEEP") != "1" and rc == 0:
